@@ -130,13 +130,10 @@ def beer_lambert(ctx):
         if isinstance(fn, ast.Attribute) and fn.attr == 'k' and \
                 isinstance(fn.value, ast.Name) and fn.value.id == 'material':
             return Rat.atom('K')
-        if isinstance(fn, ast.Attribute) and fn.attr == 'exp':
-            a = ev.ev(call.args[0])
-            ev.sym.exp_args = getattr(ev.sym, 'exp_args', []) + [a]
-            return Rat.atom('EXP')
     ev = fn_eval(P, f, sym=sym, inline=inline,
                  choose=lambda t, e: True if 'material' in unparse(t) else None)
-    args = getattr(sym, 'exp_args', [])
+    exps = [(a, x[0]) for a, (k, x) in sym.defs.items() if k == 'exp']
+    args = [x for a, x in exps]
     want = -Rat.const(4) * Rat.atom('pi') * Rat.atom('K') * Rat.atom('t') * \
         Rat.const(1000) / Rat.atom('self.w')
     if len(args) == 1 and rat_eq(args[0], want):
@@ -149,7 +146,8 @@ def beer_lambert(ctx):
             f'wavelength, t in mm, w in um)',
             construct='propagate: exponent of the absorption factor'))
     inew = ev.heap.get('self.i')
-    if inew is not None and rat_eq(inew, Rat.atom('self.i') * Rat.atom('EXP')):
+    if inew is not None and len(exps) == 1 and rat_eq(
+            inew, Rat.atom('self.i') * Rat.atom(exps[0][0])):
         res.ok('i_new == i_old * exp(...)')
     else:
         res.fail(ctx.finding('BEER-LAMBERT', f, f.node,
